@@ -14,20 +14,29 @@ Open Scope string_scope.
 
 (* For every number (sign, integer digits, optional fraction, optional
    exponent; at least one mantissa digit): its spellings with any exponent
-   marker E/e/D/d/none-before-a-sign and — when there is no exponent — any count
-   of zeros padded to the fraction all normalise to one string, given
-   explicitly.  Guard found: with an exponent the padding must be the same
-   (zeros between a fraction and an exponent are never removed); see the
-   _refuted statement below. *)
+   marker E/e/D/d/none-before-a-sign and any count of zeros padded to the
+   fraction — with or without exponent — all normalise to one string, given
+   explicitly: the fraction without its final zeros ("0" kept when nothing is
+   left and the number has no exponent or no integer digit), marker e. *)
+Example C09_normal_form_unfold : forall n,
+  normal_form n =
+  match n_exp n with
+  | None => n_sign n ++ n_int n ++
+            match n_frac n with Some f => "." ++ canon_frac f | None => "" end
+  | Some (es, ed) => n_sign n ++ n_int n ++
+            match n_frac n with Some f => "." ++ keep_frac (n_int n) f | None => "" end ++
+            "e" ++ es ++ ed
+  end.
+Proof. intros. reflexivity. Qed.
+
 Theorem C09_normalize_float_normal_form : forall (n : number) (pad : nat) (m : marker),
   wf_number n = true -> marker_ok n m = true ->
-  normalize_float (spell n pad m) = Ok (normal_form n pad).
+  normalize_float (spell n pad m) = Ok (normal_form n).
 Proof. exact norm_spell. Qed.
 Print Assumptions C09_normalize_float_normal_form.
 
 Theorem C09_normalize_float_classes : forall (n : number) (p1 : nat) (m1 : marker) (p2 : nat) (m2 : marker),
   wf_number n = true -> marker_ok n m1 = true -> marker_ok n m2 = true ->
-  (n_exp n = None \/ p1 = p2) ->
   normalize_float (spell n p1 m1) = normalize_float (spell n p2 m2) /\
   exists s, normalize_float (spell n p1 m1) = Ok s.
 Proof. exact normalize_float_classes. Qed.
@@ -36,26 +45,39 @@ Print Assumptions C09_normalize_float_classes.
 Example C09_classes_nontrivial :
   let n := mkNumber "-" "6" (Some "40875") (Some ("-", "2")) in
   wf_number n = true /\ marker_ok n Mnone = true /\ marker_ok n MD = true /\
-  spell n 0 Mnone = "-6.40875-2" /\ spell n 0 MD = "-6.40875D-2" /\
-  normalize_float (spell n 0 Mnone) = Ok "-6.40875e-2" /\
+  spell n 0 Mnone = "-6.40875-2" /\ spell n 3 MD = "-6.40875000D-2" /\
+  normalize_float (spell n 3 MD) = Ok "-6.40875e-2" /\
   let n' := mkNumber "" "1" (Some "") None in
   wf_number n' = true /\ spell n' 0 Me = "1." /\ spell n' 2 Me = "1.00" /\
-  normalize_float (spell n' 2 Me) = Ok "1.0".
+  normalize_float (spell n' 2 Me) = Ok "1.0" /\
+  let n'' := mkNumber "" "" (Some "0") (Some ("", "5")) in
+  wf_number n'' = true /\ spell n'' 2 Me = ".000e5" /\ normalize_float (spell n'' 2 Me) = Ok ".0e5".
 Proof. vm_compute. repeat split. Qed.
 
-(* the guard "same padding in front of an exponent" is needed
-   (finding trailing_zeros_before_exponent) *)
-Theorem C09_normalize_float_exponent_padding_refuted :
-  exists n p1 p2 m, wf_number n = true /\ marker_ok n m = true /\
-    spell n p1 m = "-1.5e-3" /\ spell n p2 m = "-1.50e-3" /\
-    normalize_float (spell n p1 m) <> normalize_float (spell n p2 m).
-Proof. exact normalize_float_exponent_padding_refuted. Qed.
-Print Assumptions C09_normalize_float_exponent_padding_refuted.
+(* what normalize_float does NOT identify (the property text only names
+   trailing zeros and Fortran exponent forms): a missing point, leading zeros
+   or a missing integer part, an explicit '+', the spelling of the exponent,
+   a shifted point; the last four lines are pairs that do collapse *)
+Theorem C09_normalize_float_kept_distinct :
+  normalize_float "1" <> normalize_float "1.0" /\
+  normalize_float "1e5" <> normalize_float "1.e5" /\
+  normalize_float "01.5" <> normalize_float "1.5" /\
+  normalize_float ".5" <> normalize_float "0.5" /\
+  normalize_float "+1.5" <> normalize_float "1.5" /\
+  normalize_float "1.5e5" <> normalize_float "1.5e+5" /\
+  normalize_float "1.5e5" <> normalize_float "1.5e05" /\
+  normalize_float "15" <> normalize_float "1.5e1" /\
+  normalize_float "1." = normalize_float "1.00" /\
+  normalize_float "1.0e5" = normalize_float "1.D5" /\
+  normalize_float ".50-3" = normalize_float ".5E-3" /\
+  normalize_float ".0e5" = normalize_float ".000d5".
+Proof. exact normalize_float_kept_distinct. Qed.
+Print Assumptions C09_normalize_float_kept_distinct.
 
 (* normalised densities are fixed points: normalising again (as
    constructCompositionT4 does with the stored density) changes nothing *)
-Theorem C09_normal_form_fixed : forall (n : number) (pad : nat),
-  wf_number n = true -> normalize_float (normal_form n pad) = Ok (normal_form n pad).
+Theorem C09_normal_form_fixed : forall (n : number),
+  wf_number n = true -> normalize_float (normal_form n) = Ok (normal_form n).
 Proof. exact normal_form_fixed. Qed.
 Print Assumptions C09_normal_form_fixed.
 
@@ -102,28 +124,38 @@ Theorem C09_parse_material_classes :
          (rest1 rest2 : list string),
   int_of_token mat = Some z -> z <> 0%Z ->
   wf_number n = true -> marker_ok n m1 = true -> marker_ok n m2 = true ->
-  (n_exp n = None \/ p1 = p2) ->
-  parse_material (mat :: spell n p1 m1 :: rest1) = Ok (mat, Some (normal_form n p1)) /\
+  parse_material (mat :: spell n p1 m1 :: rest1) = Ok (mat, Some (normal_form n)) /\
   parse_material (mat :: spell n p2 m2 :: rest2) = parse_material (mat :: spell n p1 m1 :: rest1).
 Proof. exact parse_material_classes. Qed.
 Print Assumptions C09_parse_material_classes.
 
 (* LIKE n BUT RHO=: the density keyword is stored exactly like the same spelling
-   on a cell card, so the classes above carry over to LIKE n BUT cells *)
+   on a cell card, so the classes above carry over to LIKE n BUT cells (material
+   number other than 0) *)
 Theorem C09_like_but_rho :
-  forall (toks : list string) (m0 : string) (d0 kmat : option string) (n : number) (pad : nat) (m : marker),
+  forall (toks : list string) (m0 : string) (d0 kmat : option string) (n : number) (pad : nat) (m : marker) (z : Z),
   parse_material toks = Ok (m0, d0) -> wf_number n = true -> marker_ok n m = true ->
+  int_of_token (match kmat with Some x => x | None => m0 end) = Some z -> z <> 0%Z ->
   cell_material toks kmat (Some (spell n pad m)) =
-    Ok (match kmat with Some x => x | None => m0 end, Some (normal_form n pad)).
+    Ok (match kmat with Some x => x | None => m0 end, Some (normal_form n)).
 Proof. exact cell_material_rho. Qed.
 Print Assumptions C09_like_but_rho.
 
-(* LIKE n BUT MAT=0 gives a void cell that still carries the base density, which
-   GEOMCOMP then writes as m0_<density> (finding like_but_mat_void) *)
-Theorem C09_like_but_void_refuted :
-  exists toks d, cell_material toks (Some "0") None = Ok ("0", Some d).
-Proof. exact cell_material_void_refuted. Qed.
-Print Assumptions C09_like_but_void_refuted.
+(* LIKE n BUT MAT=0 (any spelling of 0) gives a void cell WITHOUT density,
+   whatever the base cell and whatever RHO= says; with C09_geomcomp_lines its
+   volumes go to the line m0 *)
+Theorem C09_like_but_void :
+  forall (toks : list string) (m0 : string) (d0 : option string) (kmat : string) (krho : option string),
+  parse_material toks = Ok (m0, d0) -> int_of_token kmat = Some 0%Z ->
+  (forall r, krho = Some r -> exists nr, normalize_float r = Ok nr) ->
+  cell_material toks (Some kmat) krho = Ok (kmat, None).
+Proof. exact cell_material_void. Qed.
+Print Assumptions C09_like_but_void.
+
+Example C09_like_but_void_nontrivial :
+  cell_material ["1"; "-1.0"] (Some "0") None = Ok ("0", None) /\
+  geomcomp_lines [(2%Z, mkVol false [])] [(2%Z, mkCell "0" None 1 0 None [])] = Ok [("m0", 1%N, [2%Z])].
+Proof. vm_compute. split; reflexivity. Qed.
 
 (* ------------------------------------------------------------------------ *)
 (* provenance: the filler, not the container                                 *)
